@@ -44,6 +44,17 @@ theorem prism_solution_unique (Ω C H : Matrix n n ℝ) (hdet : IsUnit (1 - Ω *
   calc H = (1 - Ω * C)⁻¹ * ((1 - Ω * C) * H) := by rw [← Matrix.mul_assoc, Matrix.nonsing_inv_mul _ hdet, Matrix.one_mul]
     _ = (1 - Ω * C)⁻¹ * (Ω * C) * Ω := by rw [h1]; noncomm_ring
 
+/-- the tie to the code model: what a successful `cost` evaluation stores as `totalCorr` **is** `Hmap` of the stored ω and
+the stored Fourier-space `directCorr` (at every wavenumber where `1 − ΩĈ` is invertible and the external inverse inverted
+it) — so `matrix_map_perm` and `split_lifts` are statements about the arrays on the object -/
+theorem cost_totalCorr_is_Hmap {inv : ℕ → Array ℝ → Array ℝ} {p q : Prism ℝ} {x : Array ℝ} (w : PWf p) (hc : p.cost inv x = .ok q)
+    {l : ℕ} (hl : l < p.dom.length)
+    (hinv : InvOn inv p.n fun i j => (if i = j then 1 else 0) - ∑ k ∈ range p.n, p.omega.at l i k * q.directCorr.at l k j)
+    (hρ : ∀ i j, i < p.n → j < p.n → p.pairD.at 0 i j ≠ 0)
+    (hdet : IsUnit (1 - C01.mat p.n p.omega l * C01.mat p.n q.directCorr l).det) :
+    C01.matH p.n p.pairD q.totalCorr l = Hmap (C01.mat p.n p.omega l) (C01.mat p.n q.directCorr l) :=
+  prism_solution_unique _ _ _ hdet (C01.prism_equation_of_cost w hc hl hinv hρ)
+
 /-- **species splitting.**  Let the one-component functions satisfy `h = ω c (ω + ρ h)` (the rank-1 PRISM
 equation with `Ω₁ = ρ ω`, `H₁ = ρ² h`).  Label the sites by `n` species with densities `ρ_a`, `Σ ρ_a = ρ`, and let
 `Ω` be any symmetric matrix whose rows sum to `ρ_a ω` (monatomic `A/A'`: `diag ρ_a`; the two halves of a
